@@ -18,17 +18,21 @@ if not os.path.isdir(WT):
 rp = os.path.join(V, "seeded/results.json")
 res = json.load(open(rp)) if os.path.exists(rp) else {}
 tier = "quick"
+rnd = "2"
 ids = sys.argv[1:]
+if ids and ids[0].startswith("--round="):
+    rnd = ids[0].split("=")[1]
+    ids = ids[1:]
 for pid in ids:
-    for k in ("1", "2", "3"):
-        src = "/tmp/wt2_%s/out/%s" % (pid, k)
+    for k in ("1", "2", "3", "4"):
+        src = "/tmp/wt%s_%s/out/%s" % (rnd, pid, k)
         if not os.path.exists(src + "/patch.diff"):
-            print(pid, k, "no patch"); continue
-        name = "%s-r2-%s" % (pid, k)
+            continue
+        name = "%s-r%s-%s" % (pid, rnd, k)
         dst = os.path.join(V, "seeded", name)
         os.makedirs(dst, exist_ok=True)
         shutil.copy(src + "/patch.diff", dst + "/patch.diff")
-        demo = "zz_seed_%s_r2_%s_test.go" % (pid, k)
+        demo = "zz_seed_%s_r%s_%s_test.go" % (pid, rnd, k)
         if os.path.exists(src + "/demo_test.go"):
             shutil.copy(src + "/demo_test.go", os.path.join(dst, demo))
         if os.path.exists(src + "/README.md"):
